@@ -10,7 +10,14 @@
    puts masked frames on the wire, each frame possibly written in several pieces; the *network*
    delivers any amount of what has been written (the kernel may coalesce or split pieces); the
    *server handler* repeatedly calls recv (blocking) or recv_nonblocking, optionally echoes what it
-   received with send, and finally returns, which drops the stream.
+   received with send, and finally returns, which drops the stream.  A handler may also MIX the two
+   calls on one stream: with pre = "poll" it first polls with recv_nonblocking while nothing is
+   pending (the client holds its frames back until that poll has returned `nothing yet'), with
+   pre = "pollpush" it then pushes a message of its own (of any size, to a client that may be slow
+   to read) before it goes on receiving in its mode.  sock is the O_NONBLOCK state of the socket as
+   the last receive call left it: frame.rs from_stream_nonblocking switches the socket to
+   non-blocking for ONE header read and must switch it back whatever that read returned, because
+   every other read and every write of the crate assumes a blocking socket.
 
    Payloads are run-length encoded byte strings: a sequence of records [b |-> byte, n |-> count]
    without empty or mergeable runs.  This keeps a 70 KiB payload a handful of runs, is lossless, and
@@ -27,6 +34,10 @@
      OneByteHeader     the non-blocking header read is ONE read() of up to 2 bytes; when only the first
                        header byte has arrived the second is taken to be 0 (unmasked, length 0) and the
                        byte stream is out of step from then on (frame.rs from_stream_nonblocking)
+     NonblockingLeftOn blocking mode is restored only when the non-blocking header read found a frame; a poll that
+                       reports `nothing yet' leaves the socket non-blocking: a later send that does not fit
+                       into the socket buffers stops after a partial write (truncated frame on the wire) and
+                       a later blocking read fails with WouldBlock instead of waiting (seeded mutant)
      PongTruncated, ControlAsData, TypeFromLast, CloseNoReply, DropCloseTwice, NoneWhilePartial
                        (mutants = plausible bugs, see the actions) *)
 EXTENDS Naturals, Sequences, FiniteSets, TLC
@@ -142,8 +153,10 @@ VARIABLES
   key,       \* key offered by the client (NoKey: none); "-" before the handshake
   status,    \* status code of the handshake answer (0: connection closed without an answer)
   accept,    \* Sec-WebSocket-Accept of the answer
-  mode,      \* "blocking" | "nonblocking": which receive call the handler uses
+  mode,      \* "blocking" | "nonblocking": which receive call the handler uses (after its preamble)
   echo,      \* TRUE: the handler sends every received message back
+  pre,       \* handler preamble: "none" | "poll" (one empty recv_nonblocking first) | "pollpush" (... then a push)
+  pushpay,   \* payload of the binary message pushed by the preamble
   wire,      \* frames the client has started to write, in order
   cuts,      \* cuts[i]: set of offsets inside frame i after which the client pauses
   sentB,     \* bytes of the frame stream written so far
@@ -159,21 +172,26 @@ VARIABLES
   closed,    \* a receive call reported ConnectionClosed (WebsocketStream.closed)
   failed,    \* a receive call reported an error other than ConnectionClosed
   dropped,   \* the handler has returned and the stream was dropped
-  desync     \* OneByteHeader happened: server and client disagree about frame boundaries
+  desync,    \* OneByteHeader happened: server and client disagree about frame boundaries
+  sock,      \* "blocking" | "nonblocking": O_NONBLOCK of the socket as the server's last fcntl left it
+  cm,        \* which call the current / last receive call is: "blocking" (recv) | "nonblocking" (recv_nonblocking)
+  polled,    \* the preamble's empty poll has returned
+  pushed     \* the preamble's push has been written
 
 cvars == <<wire, cuts, sentB, cst>>
-svars == <<ci, call, frags, last, srvOut, delivered, echoq, closed, failed, dropped, desync>>
-hvars == <<hs, key, status, accept, mode, echo>>
+svars == <<ci, call, frags, last, srvOut, delivered, echoq, closed, failed, dropped, desync, sock, cm, polled, pushed>>
+hvars == <<hs, key, status, accept, mode, echo, pre, pushpay>>
 vars  == <<hvars, cvars, arrB, svars>>
 
 Consumed  == SubSeq(wire, 1, ci)
 ConsumedB == SumWire(Consumed)
 TotalB    == SumWire(wire)                        \* bytes of all frames started
 StartB(i) == SumWire(SubSeq(wire, 1, i - 1))      \* offset of frame i in the stream
-NB        == mode = "nonblocking" /\ frags = <<>>  \* message.rs `is_first_frame`: the next header read does not block
+NB        == cm = "nonblocking" /\ frags = <<>>    \* message.rs `is_first_frame`: the next header read does not block
 
-InitWith(m, e) ==
-  /\ hs = "init" /\ key = "-" /\ status = 0 /\ accept = NoAccept /\ mode = m /\ echo = e
+InitWith(m, e, p, pp) ==
+  /\ hs = "init" /\ key = "-" /\ status = 0 /\ accept = NoAccept /\ mode = m /\ echo = e /\ pre = p /\ pushpay = pp
+  /\ sock = "blocking" /\ cm = m /\ polled = FALSE /\ pushed = FALSE
   /\ wire = <<>> /\ cuts = <<>> /\ sentB = 0 /\ arrB = 0 /\ cst = "run"
   /\ ci = 0 /\ call = "idle" /\ frags = <<>> /\ last = "-" /\ srvOut = <<>> /\ delivered = <<>>
   /\ echoq = <<>> /\ closed = FALSE /\ failed = FALSE /\ dropped = FALSE /\ desync = FALSE
@@ -188,7 +206,7 @@ Cli_Handshake(k) ==
   /\ IF k = NoKey
      THEN hs' = "refused" /\ status' = 0 /\ accept' = NoAccept
      ELSE hs' = "open" /\ status' = 101 /\ accept' = AcceptOf(k)
-  /\ UNCHANGED <<mode, echo, cvars, arrB, svars>>
+  /\ UNCHANGED <<mode, echo, pre, pushpay, cvars, arrB, svars>>
 
 (* Client.  A frame is started by writing its first piece (up to the first cut, or all of it). *)
 NextStop(i, from) ==      \* where the current piece of frame i ends, given `from` bytes of the stream are out
@@ -198,6 +216,7 @@ NextStop(i, from) ==      \* where the current piece of frame i ends, given `fro
 
 Cli_StartFrame(f, cs) ==
   /\ hs = "open" /\ cst = "run" /\ sentB = TotalB
+  /\ pre = "none" \/ polled          \* the client holds its frames back until the handler's empty poll has returned
   /\ LegalNext(wire, f)
   /\ cs \subseteq 1..(CWire(f) - 1)
   /\ wire' = Append(wire, f) /\ cuts' = Append(cuts, cs)
@@ -233,9 +252,11 @@ Observe(n) ==        \* the server learns that (at least) n bytes have arrived
 \* (0 when it did not look): a lower bound on what has arrived
 Srv_CallRecvObs(n) ==
   /\ hs = "open" /\ call = "idle" /\ ~closed /\ ~failed /\ ~dropped /\ echoq = <<>>
+  /\ (pre = "pollpush" /\ polled) => pushed
   /\ Observe(ConsumedB + n)
   /\ call' = "recv" /\ frags' = <<>>
-  /\ UNCHANGED <<hvars, cvars, ci, last, srvOut, delivered, echoq, closed, failed, dropped, desync>>
+  /\ cm' = IF pre # "none" /\ ~polled THEN "nonblocking" ELSE mode      \* the preamble's poll, then the handler's mode
+  /\ UNCHANGED <<hvars, cvars, ci, last, srvOut, delivered, echoq, closed, failed, dropped, desync, sock, polled, pushed>>
 Srv_CallRecv == Srv_CallRecvObs(0)
 
 \* bytes the server writes for a reply frame
@@ -281,7 +302,8 @@ Srv_Frame ==
   /\ Observe(ConsumedB + CWire(wire[ci + 1]))
   /\ ci' = ci + 1
   /\ Process(wire[ci + 1])
-  /\ UNCHANGED <<hvars, cvars, failed, dropped, desync>>
+  /\ sock' = IF NB THEN "blocking" ELSE sock     \* set_nonblocking; read -> Ok(n); set_blocking
+  /\ UNCHANGED <<hvars, cvars, failed, dropped, desync, cm, polled, pushed>>
 
 \* deviation: exactly one byte of the next frame is there when the non-blocking header read runs
 Srv_OneByte ==
@@ -290,12 +312,13 @@ Srv_OneByte ==
   /\ arrB <= ConsumedB + 1 /\ Observe(ConsumedB + 1)
   /\ desync' = TRUE
   /\ Process([op |-> wire[ci + 1].op, fin |-> wire[ci + 1].fin, pay |-> <<>>])
-  /\ UNCHANGED <<hvars, cvars, ci, failed, dropped>>
+  /\ sock' = "blocking"
+  /\ UNCHANGED <<hvars, cvars, ci, failed, dropped, cm, polled, pushed>>
 \* ... after which the rest of the byte stream is read as garbage (approximated by an error)
 Srv_Garbage ==
   /\ call = "recv" /\ desync
   /\ call' = "idle" /\ last' = "error" /\ failed' = TRUE /\ frags' = <<>>
-  /\ UNCHANGED <<hvars, cvars, arrB, ci, srvOut, delivered, echoq, closed, dropped, desync>>
+  /\ UNCHANGED <<hvars, cvars, arrB, ci, srvOut, delivered, echoq, closed, dropped, desync, sock, cm, polled, pushed>>
 
 \* recv_nonblocking: `nothing yet' - WouldBlock (or Ok(0) at end of stream) on the header read
 Srv_None ==
@@ -303,7 +326,9 @@ Srv_None ==
   /\ \/ arrB = ConsumedB /\ UNCHANGED arrB          \* nothing beyond what was consumed is there
      \/ /\ "NoneWhilePartial" \in Dev /\ ci < Len(wire) /\ Observe(ConsumedB + 1)
   /\ call' = "idle" /\ last' = "none"
-  /\ UNCHANGED <<hvars, cvars, ci, frags, srvOut, delivered, echoq, closed, failed, dropped, desync>>
+  /\ sock' = IF "NonblockingLeftOn" \in Dev THEN "nonblocking" ELSE "blocking"    \* set_blocking also after WouldBlock / Ok(0)
+  /\ polled' = TRUE
+  /\ UNCHANGED <<hvars, cvars, ci, frags, srvOut, delivered, echoq, closed, failed, dropped, desync, cm, pushed>>
 
 \* end of stream inside (blocking: also before) a frame: read_exact fails -> ReadError
 Srv_Eof ==
@@ -312,29 +337,55 @@ Srv_Eof ==
   /\ ~(NB /\ sentB = ConsumedB)
   /\ IF ci = Len(wire) THEN TRUE ELSE sentB < ConsumedB + CWire(wire[ci + 1])
   /\ call' = "idle" /\ last' = "error" /\ failed' = TRUE /\ frags' = <<>>
-  /\ UNCHANGED <<hvars, cvars, ci, srvOut, delivered, echoq, closed, dropped, desync>>
+  /\ sock' = IF NB THEN "blocking" ELSE sock
+  /\ UNCHANGED <<hvars, cvars, ci, srvOut, delivered, echoq, closed, dropped, desync, cm, polled, pushed>>
+
+\* a blocking read on a socket that was left non-blocking: WouldBlock -> ReadError unless everything needed is there
+\* (reachable only under NonblockingLeftOn: Inv_SockRestored says sock = "blocking" between calls)
+Srv_WouldBlock ==
+  /\ call = "recv" /\ ~desync /\ ~NB /\ sock = "nonblocking"
+  /\ IF ci = Len(wire) THEN TRUE ELSE arrB < ConsumedB + CWire(wire[ci + 1])
+  /\ call' = "idle" /\ last' = "error" /\ failed' = TRUE /\ frags' = <<>>
+  /\ UNCHANGED <<hvars, cvars, arrB, ci, srvOut, delivered, echoq, closed, dropped, desync, sock, cm, polled, pushed>>
 
 \* WebsocketStream::send of the message just received (Message::to_frame: one unmasked final frame)
+\* write_all of one frame.  On a blocking socket it completes whatever the size (it waits for the client to read).
+\* On a socket left non-blocking a frame that is not certain to fit into the socket buffers may stop after a
+\* partial write: the client sees a truncated frame.  (4096 bytes always fit into an idle connection's buffers.)
+Written(op, pay) ==
+  IF sock = "nonblocking" /\ PLen(pay) > 4096
+  THEN { SrvFrame(op, pay), [SrvFrame(op, pay) EXCEPT !.trunc = TRUE] }
+  ELSE { SrvFrame(op, pay) }
+
 Srv_Send ==
   /\ call = "idle" /\ echoq # <<>> /\ ~dropped
-  /\ srvOut' = Append(srvOut, SrvFrame(IF echoq[1].text THEN "text" ELSE "binary", echoq[1].pay))
+  /\ \E w \in Written(IF echoq[1].text THEN "text" ELSE "binary", echoq[1].pay) : srvOut' = Append(srvOut, w)
   /\ echoq' = <<>>
-  /\ UNCHANGED <<hvars, cvars, arrB, ci, call, frags, last, delivered, closed, failed, dropped, desync>>
+  /\ UNCHANGED <<hvars, cvars, arrB, ci, call, frags, last, delivered, closed, failed, dropped, desync, sock, cm, polled, pushed>>
+
+\* the preamble's push: WebsocketStream::send(Message::new_binary(pushpay)) right after the empty poll
+Srv_Push ==
+  /\ hs = "open" /\ call = "idle" /\ ~dropped /\ pre = "pollpush" /\ polled /\ ~pushed
+  /\ \E w \in Written("binary", pushpay) : srvOut' = Append(srvOut, w)
+  /\ pushed' = TRUE
+  /\ UNCHANGED <<hvars, cvars, arrB, ci, call, frags, last, delivered, echoq, closed, failed, dropped, desync, sock, cm, polled>>
 
 \* the handler returns: Drop for WebsocketStream sends a Close unless one was already exchanged
 Srv_Drop ==
   /\ hs = "open" /\ call = "idle" /\ ~dropped /\ echoq = <<>>
   /\ dropped' = TRUE
   /\ srvOut' = IF closed /\ "DropCloseTwice" \notin Dev THEN srvOut ELSE srvOut \o Reply("close", <<>>)
-  /\ UNCHANGED <<hvars, cvars, arrB, ci, call, frags, last, delivered, echoq, closed, failed, desync>>
+  /\ UNCHANGED <<hvars, cvars, arrB, ci, call, frags, last, delivered, echoq, closed, failed, desync, sock, cm, polled, pushed>>
 
-SrvNext == Srv_CallRecv \/ Srv_Frame \/ Srv_OneByte \/ Srv_Garbage \/ Srv_None \/ Srv_Eof \/ Srv_Send \/ Srv_Drop
+SrvNext == Srv_CallRecv \/ Srv_Frame \/ Srv_OneByte \/ Srv_Garbage \/ Srv_None \/ Srv_Eof \/ Srv_WouldBlock
+           \/ Srv_Send \/ Srv_Push \/ Srv_Drop
 
 -----------------------------------------------------------------------------
 (* Properties *)
 TypeOK ==
   /\ hs \in {"init", "open", "refused"} /\ mode \in {"blocking", "nonblocking"} /\ echo \in BOOLEAN
   /\ cst \in {"run", "shut"} /\ call \in {"idle", "recv"} /\ last \in {"-", "msg", "none", "closed", "error"}
+  /\ pre \in {"none", "poll", "pollpush"} /\ sock \in {"blocking", "nonblocking"} /\ cm \in {"blocking", "nonblocking"}
   /\ Len(cuts) = Len(wire) /\ ci <= Len(wire)
   /\ ConsumedB <= arrB /\ arrB <= sentB /\ sentB <= TotalB
   /\ \A i \in 1..Len(wire) : LegalNext(SubSeq(wire, 1, i - 1), wire[i])
@@ -363,6 +414,13 @@ Inv_Close ==
   /\ NumClose(srvOut) = (IF closed \/ dropped THEN 1 ELSE 0)
   /\ closed \/ dropped => Len(srvOut) > 0 /\ srvOut[Len(srvOut)].op = "close"
 
+\* every receive call - also one that reports `nothing yet' - leaves the socket in blocking mode ...
+Inv_SockRestored == call = "idle" => sock = "blocking"
+\* ... so a message the handler sends is written completely whatever its size (the pushed frame is in srvOut, whole)
+Inv_Pushed == pushed => \E i \in 1..Len(srvOut) : srvOut[i] = SrvFrame("binary", pushpay)
+\* ... and a receive call fails only at the end of the client's stream: a blocking receive after an empty poll waits
+ErrorOnlyAtEof == [][(failed' /\ ~failed) => (cst = "shut" /\ arrB' = sentB)]_vars
+
 \* `nothing yet' only when no frame has started to arrive
 NoneOnlyWhenNothing == [][(call = "recv" /\ call' = "idle" /\ last' = "none") => arrB' = ConsumedB]_vars
 
@@ -379,7 +437,7 @@ SentFrames == IF sentB = TotalB THEN wire ELSE SubSeq(wire, 1, Len(wire) - 1)
 \* but not forever once the frame has been written).
 Fairness ==
   /\ WF_vars(Cli_Piece)
-  /\ WF_vars(Srv_CallRecv) /\ SF_vars(Srv_Frame) /\ SF_vars(Srv_Eof) /\ WF_vars(Srv_Send) /\ WF_vars(Srv_Garbage)
+  /\ WF_vars(Srv_CallRecv) /\ SF_vars(Srv_Frame) /\ SF_vars(Srv_Eof) /\ WF_vars(Srv_Send) /\ WF_vars(Srv_Push) /\ WF_vars(Srv_Garbage)
 CloseAnswered == HasClose(SentFrames) ~> (closed \/ dropped \/ failed)
 AllDeliveredUpTo(K) == \A k \in 1..K : (Len(Msgs(SentFrames)) >= k) ~> (Len(delivered) >= k \/ dropped \/ failed)
 =============================================================================
